@@ -12,11 +12,14 @@ compares the two, story by story, inside Coq:
     dummy 0): the real message must name no line at all.
   A difference is `chk.disagree("diag-index", ...)`.
 
-One modelling simplification is known and compensated here, visibly: for a `~` statement that spans several lines the
-real compiler adds Python's `e.lineno - 1` to the index (it names the continuation line Python blames), which the
-oracle py_stmt_ok of the model does not expose (Compiler/ParseMain.v header).  The harness recomputes `e.lineno - 1`
-with the real `ast` for the statement the compiler handed to ast.parse and subtracts it (counted as
-"stmt-multiline-adjusted").
+For a `~` statement that spans several lines the real compiler adds Python's `e.lineno - 1` to the index (it names the
+continuation line Python blames).  The model does the same through the oracle py_stmt_errline (Compiler/ParseBase.v),
+which c11.Probe records from the real SyntaxError for every statement the compiler handed to ast.parse
+(`probe.errline`); nothing is compensated here.  Kind (s) of DiagCulprit.diag_classified: the real message must say
+"on line i + 1" and line i must lie inside a `~` statement of the pre-passed text (inside_statement_b).  The premise
+of DiagCulprit.culprit_stmt_site (errline_inside: Python blames a line of the text it was given) is checked on every
+rejected statement: `probe.errline[src] <= src.count("\n")`; a violation is `chk.disagree("oracle-premise", ...)`.
+Counted as evidence: "stmt_blamed_continuation_line" = cases whose blamed line is not the `~` line.
 
 Stories: every diagnosable construct of harness/c14.py CONSTRUCTS that compile_string can diagnose, placed at every
 position of the single-file hosts of c14 (plain, blocks, join, struct: top level, inside @if / @for bodies, inside
@@ -29,7 +32,6 @@ with both defaults, as in C11.
 """
 from __future__ import annotations
 
-import ast
 import os
 import re
 import sys
@@ -46,9 +48,10 @@ from .common import coq_list, coq_bool, coq_nat, coq_opt
 HEADER = ("From Coq Require Import List String Ascii Bool Arith.\n"
           "From Bardic Require Import PyStr Value Compiled Lex ParseBase ParseLine ParseMain ParseCheck.\n"
           "From Bardic Require Import ParseBlocks ParseBlocksInst ParseAllProofs DiagCulprit.\n"
-          "Definition icase := (list string * stmt_table * call_table * option nat)%type.\n"
+          "Definition icase := (list string * stmt_table * errline_table * call_table * option nat)%type.\n"
           "Definition imodel (dflt : bool) (c : icase) : pres story :=\n"
-          "  let '(lines, st, ct, _) := c in parse (table_pyparse st ct dflt) (table_is_call ct) real_extractors lines.\n"
+          "  let '(lines, st, et, ct, _) := c in\n"
+          "  parse (table_pyparse_e st et ct dflt) (table_is_call ct) real_extractors lines.\n"
           "(* kinds (c)/(d) of DiagCulprit.diag_classified: the index is the dummy 0 *)\n"
           "Definition no_line_kind (s : string) (i : nat) : bool := callsite s || (csite s && Nat.eqb i 0).\n"
           "Definition iagree (m : pres story) (r : option nat) : bool :=\n"
@@ -59,18 +62,20 @@ HEADER = ("From Coq Require Import List String Ascii Bool Arith.\n"
           "  | _ => false\n"
           "  end.\n"
           "Definition icase_bad (c : icase) : bool :=\n"
-          "  let '(_, _, _, r) := c in negb (iagree (imodel false c) r && iagree (imodel true c) r).\n"
+          "  let '(_, _, _, _, r) := c in negb (iagree (imodel false c) r && iagree (imodel true c) r).\n"
+          "(* culprit_on_it: kind (a) -- or, for the site stmt:python-syntax, kind (s): line i lies inside a `~` statement *)\n"
           "Inductive ishow := IDiag (site : string) (idx : nat) (no_line : bool) (culprit_on_it : bool)\n"
           "                 | IValue (site : string) | IOk | IOther.\n"
           "Definition ishow_of (m : pres story) (lines : list string) : ishow :=\n"
           "  match m with\n"
           "  | PDiag (DSyntax s i) =>\n"
           "      IDiag s i (no_line_kind s i)\n"
-          "            match nth_error (prepass lines) i with Some l => culprit s l | None => false end\n"
+          "            (if String.eqb s stmt_site then inside_statement_b (prepass lines) i\n"
+          "             else match nth_error (prepass lines) i with Some l => culprit s l | None => false end)\n"
           "  | PDiag (DValue s) => IValue s | POk _ => IOk | _ => IOther\n"
           "  end.\n"
           "Definition icase_show (c : icase) : ishow * ishow :=\n"
-          "  let '(lines, _, _, _) := c in (ishow_of (imodel false c) lines, ishow_of (imodel true c) lines).\n"
+          "  let '(lines, _, _, _, _) := c in (ishow_of (imodel false c) lines, ishow_of (imodel true c) lines).\n"
           "Definition icase_site (c : icase) : ishow := fst (icase_show c).")
 
 MAX_LINE = 1500      # the model's string accumulators are quadratic (same bound as c11.MAX_MODEL_LINE)
@@ -194,7 +199,7 @@ def mutated(rng, n):
 
 
 def real_diag(lines):
-    """('syntax', line or None, adj, head, probe) | ('other', what)."""
+    """('syntax', line or None, head, probe) | ('other', what)."""
     from bardic.compiler.compiler import BardCompiler
     text = "\n".join(lines)
     with P.Probe() as pr:
@@ -214,17 +219,7 @@ def real_diag(lines):
         return ("other", "oracle-escape")
     kind, locs = L.parse_location(msg, None)
     line = locs[0][1] if kind == "fmt" else None
-    adj = 0
-    if msg.startswith("✗ Invalid Python Syntax"):
-        bad = [src for src, ok in pr.stmt.items() if not ok]
-        if bad:
-            try:
-                ast.parse(bad[-1])
-            except SyntaxError as e2:
-                adj = (e2.lineno or 1) - 1
-            except (RecursionError, MemoryError, ValueError):
-                adj = 0
-    return ("syntax", line, adj, msg.split("\n")[0][:80] + (" | " + msg.split("\n")[1].strip() if "\n" in msg else ""), pr)
+    return ("syntax", line, msg.split("\n")[0][:80] + (" | " + msg.split("\n")[1].strip() if "\n" in msg else ""), pr)
 
 
 def icase_term(lines, pr, expect):
@@ -233,7 +228,8 @@ def icase_term(lines, pr, expect):
     def shape(v):
         return coq_opt(v, lambda x: f"({coq_nat(x[0])}, {coq_list(P.cs(k) for k in x[1])})")
     ct = coq_list(f"({P.cs(k)}, ({shape(v[0])}, {coq_bool(v[1])}))" for k, v in pr.calls.items())
-    return f"({coq_list(P.cs(l) for l in lines)}, {st}, {ct}, {coq_opt(expect, coq_nat)})"
+    et = coq_list(f"({P.cs(k)}, {coq_nat(v)})" for k, v in pr.errline.items())
+    return f"({coq_list(P.cs(l) for l in lines)}, {st}, {et}, {ct}, {coq_opt(expect, coq_nat)})"
 
 
 def model_sites(scratch, terms, shard=300, timeout=600):
@@ -259,7 +255,7 @@ def phase(chk, rng, n):
     """Compare the real compiler's "line N" with the model's DSyntax index + 1 on about n malformed stories."""
     C.use_repo()
     stories = placements(rng, max(1, (n * 4) // 5)) + mutated(rng, max(1, n // 2))
-    cases, skipped, adjusted = [], {}, 0
+    cases, skipped, continuation = [], {}, 0
     for label, lines in stories:
         if not all(C.is_ascii(l) and "\n" not in l and "\r" not in l and len(l) <= MAX_LINE for l in lines):
             skipped["outside-model-domain"] = skipped.get("outside-model-domain", 0) + 1
@@ -268,12 +264,17 @@ def phase(chk, rng, n):
         if r[0] != "syntax":
             skipped[r[1]] = skipped.get(r[1], 0) + 1
             continue
-        _, line, adj, head, pr = r
+        _, line, head, pr = r
         if len(cases) >= n:
             break
-        expect = None if line is None else line - adj
-        if adj:
-            adjusted += 1
+        expect = line
+        adj = max(pr.errline.values(), default=0)
+        if adj and head.startswith("✗ Invalid Python Syntax"):
+            continuation += 1
+        for src, off in pr.errline.items():
+            if off > src.count("\n"):           # premise errline_inside of DiagCulprit.culprit_stmt_site
+                chk.disagree("oracle-premise", f"{label}: Python blames line {off + 1} of a statement of "
+                             f"{src.count(chr(10)) + 1} line(s)", {"lines": lines, "statement": src, "offset": off})
         try:
             term = icase_term(lines, pr, expect)
         except ValueError:
@@ -290,11 +291,11 @@ def phase(chk, rng, n):
         label, lines, line, adj, head, _ = cases[b]
         chk.disagree("diag-index",
                      f"{label}: the real compiler says {'line ' + str(line) if line is not None else 'no line'}"
-                     f"{' (minus ' + str(adj) + ' for the multi-line statement)' if adj else ''}; the model says "
+                     f"{' (Python blames line ' + str(adj + 1) + ' of the statement)' if adj else ''}; the model says "
                      f"{shown.get(b, sites.get(b, '?'))}",
                      {"lines": lines, "real_message_head": head, "real_line": line, "model": shown.get(b, str(sites.get(b)))})
     # evidence
-    by_kind, by_site, fams = {"located(a)": 0, "loop-body(b)": 0, "no-line(c/d)": 0, "?": 0}, {}, set()
+    by_kind, by_site, fams = {"located(a)": 0, "statement(s)": 0, "loop-body(b)": 0, "no-line(c/d)": 0, "?": 0}, {}, set()
     for idx, (label, lines, line, adj, head, _) in enumerate(cases):
         s = sites.get(idx)
         fams.add(label.split(":")[0])
@@ -304,13 +305,15 @@ def phase(chk, rng, n):
             continue
         site, i, noline, culp = s
         by_site[site] = by_site.get(site, 0) + 1
-        by_kind["no-line(c/d)" if noline else ("located(a)" if culp else "loop-body(b)")] += 1
+        by_kind["no-line(c/d)" if noline else
+                (("statement(s)" if site == "stmt:python-syntax" else "located(a)") if culp else "loop-body(b)")] += 1
     info = {"stories_compared": len(cases), "disagreements": len(bad), "by_kind": by_kind,
             "distinct_sites": len(by_site), "by_site": dict(sorted(by_site.items())),
-            "construct_context_families": len(fams), "stmt_multiline_adjusted": adjusted,
+            "construct_context_families": len(fams), "stmt_blamed_continuation_line": continuation,
             "not_compared": skipped,
             "rule": "a story counts when the real compiler raises SyntaxError on it; kind (a) = the model's culprit "
-                    "predicate holds of the indexed line, (b) = it does not (index into a dedented loop body), "
+                    "predicate holds of the indexed line, (s) = site stmt:python-syntax and the indexed line lies inside "
+                    "a `~` statement, (b) = neither (index into a dedented loop body), "
                     "(c/d) = content site with index 0 or call site (the real message must name no line)"}
     chk.notes["diag_index_tie"] = info
     for label, lines, line, adj, head, _ in cases[:2]:
